@@ -738,6 +738,8 @@ struct Ctx {
     scratch: String,
     cli_seq: u64,
     cli_later_notes: usize,
+    /// milliseconds spent (parsing the reference input, running the CLI)
+    cli_ms: (u128, u128),
 }
 
 impl Ctx {
@@ -1428,8 +1430,8 @@ fn cli_corpus() -> Vec<Mat> {
         ),
         // extensions of the scalars whose definitions the CLI appends, before / after / apart from the user's items
         many(
-            &[&format!("{d}extend scalar Int @mark(n: 1)\ntype Query {{ a: Int b: Boolean }}\nextend scalar Boolean @mark(n: 2) @mark(n: 3)\n"), "extend scalar Int @mark(n: 4)\nextend scalar String @specifiedBy(url: \"https://example.com/s\")\n"],
-            Some(&[&format!("extend scalar Int @mark(n: 1)\nextend scalar Boolean @mark(n: 2) @mark(n: 3)\nextend scalar Int @mark(n: 4)\nextend scalar String @specifiedBy(url: \"https://example.com/s\")\n{d}type Query {{ a: Int b: Boolean }}\n")]),
+            &[&format!("{d}extend scalar Int @mark(n: 1)\ntype Query {{ a: Int b: Boolean }}\nextend scalar Boolean @mark(n: 2) @mark(n: 3)\n"), "extend scalar Int @mark(n: 4)\nextend scalar ID @specifiedBy(url: \"https://example.com/s\")\n"],
+            Some(&[&format!("extend scalar Int @mark(n: 1)\nextend scalar Boolean @mark(n: 2) @mark(n: 3)\nextend scalar Int @mark(n: 4)\nextend scalar ID @specifiedBy(url: \"https://example.com/s\")\n{d}type Query {{ a: Int b: Boolean }}\n")]),
         ),
         // a built-in scalar defined again by the user: defined twice within the kind
         many(&["type Query { a: Int }\n", "scalar Float\n"], Some(&["scalar Float\ntype Query { a: Int }\n"])),
@@ -1455,7 +1457,7 @@ fn main() {
     // `--nodriver 1` runs the real-code side and the Rust-only O checks alone (development aid)
     let drv = if args.extra.get("nodriver").map(|s| s == "1").unwrap_or(false) { None } else { Some(Driver::spawn(&args.driver)) };
     let cli = args.extra.get("cli").cloned();
-    let mut ctx = Ctx { rep, drv, shrink_runs: 0, samples_by_origin: BTreeMap::new(), cli, scratch: args.scratch.clone(), cli_seq: 0, cli_later_notes: 0 };
+    let mut ctx = Ctx { rep, drv, shrink_runs: 0, samples_by_origin: BTreeMap::new(), cli, scratch: args.scratch.clone(), cli_seq: 0, cli_later_notes: 0, cli_ms: (0, 0) };
     if ctx.drv.is_none() {
         ctx.rep.notes.push("no driver: K and the reference comparison were skipped".into());
     }
@@ -1500,6 +1502,7 @@ fn main() {
         batch.push(Case { mat: abs.materialize(), abs: Some(abs), origin: "cli-targeted" });
     }
     ctx.process_cli(batch);
+    ctx.rep.extra.insert("cli_ms_parse_run".into(), json!([ctx.cli_ms.0 as u64, ctx.cli_ms.1 as u64]));
     ctx.rep.extra.insert("cli_seconds".into(), json!((t_cli.elapsed().as_secs_f64() * 10.0).round() / 10.0));
 
     let n_gen = args.budget(300, 4000) * mul;
